@@ -1,1 +1,836 @@
-//! Helpers of group 'replx' (see GUIDE.md).
+//! Helpers of the replication group (C11, C08, C09, C19).
+use crate::dump::{self, Dump, Status};
+use crate::ops::{self, Op, Ref, Step};
+use crate::repl::{Cluster, ReplResult, StepResult};
+use kanidmd_lib::prelude::*;
+use proptest::prelude::*;
+use serde::{Deserialize, Serialize};
+use std::collections::{BTreeMap, BTreeSet};
+use vf_core::{CaseLog, Outcome};
+
+/// A problem of the harness itself (never a property violation): the case is discarded and labelled;
+/// `main` turns any such label into an inconclusive run (exit 2).
+pub const HARNESS_ERROR: &str = "harness-error";
+pub fn harness_error(what: &str, detail: String) -> Outcome {
+    eprintln!("harness error: {what}: {detail}");
+    Outcome::discard().class(HARNESS_ERROR).class(format!("{HARNESS_ERROR}:{what}"))
+}
+/// Call before `finish()`.
+pub fn fail_on_harness_errors(cx: &vf_core::Check) {
+    let n = cx.class_count(HARNESS_ERROR);
+    if n > 0 {
+        cx.inconclusive(&format!("{n} cases hit a harness error (see the harness-error:* classes)"));
+    }
+}
+
+// =============================================================================================
+// C11 end-to-end: concurrent session writes on real replicas
+
+pub mod sess {
+    use super::*;
+    use crate::srv::ct;
+    use kanidm_lib_crypto::CryptoPolicy;
+    use kanidmd_lib::credential::Credential;
+    use kanidmd_lib::modify::{Modify, ModifyList};
+    use kanidmd_lib::value::{AuthType, Oauth2Session, PartialValue, Session, SessionScope, SessionState, Value};
+    use std::sync::OnceLock;
+    use time::OffsetDateTime;
+
+    #[derive(Debug, Clone, PartialEq, Eq, Hash, Serialize, Deserialize)]
+    pub enum SStep {
+        /// issue login session k (0..4) on replica r; exp: 0 never, 1 far, 2 farther, 3 soon (+40 s)
+        Add { r: u8, k: u8, exp: u8 },
+        Revoke { r: u8, k: u8 },
+        /// issue / extend OAuth2 session k (parent = login session `parent`)
+        AddO2 { r: u8, k: u8, parent: u8, exp: u8 },
+        RevokeO2 { r: u8, k: u8 },
+        /// unrelated write to the same entry
+        Touch { r: u8, v: u8 },
+        /// clock skew: advance only this replica's clock
+        Advance { r: u8, secs: u16 },
+        Repl { from: u8, to: u8 },
+    }
+
+    #[derive(Debug, Clone, PartialEq, Eq, Hash, Serialize, Deserialize)]
+    pub struct Case {
+        pub replicas: u8,
+        pub steps: Vec<SStep>,
+    }
+
+    pub fn arb_case() -> BoxedStrategy<Case> {
+        (2u8..=3)
+            .prop_flat_map(|n| {
+                let r = 0..n;
+                let step = prop_oneof![
+                    6 => (r.clone(), 0u8..4, 0u8..4).prop_map(|(r, k, exp)| SStep::Add { r, k, exp }),
+                    5 => (r.clone(), 0u8..4).prop_map(|(r, k)| SStep::Revoke { r, k }),
+                    3 => (r.clone(), 0u8..3, 0u8..4, 1u8..3).prop_map(|(r, k, parent, exp)| SStep::AddO2 { r, k, parent, exp }),
+                    2 => (r.clone(), 0u8..3).prop_map(|(r, k)| SStep::RevokeO2 { r, k }),
+                    2 => (r.clone(), 0u8..4).prop_map(|(r, v)| SStep::Touch { r, v }),
+                    3 => (r.clone(), prop_oneof![Just(1u16), Just(7), Just(45), Just(300)]).prop_map(|(r, secs)| SStep::Advance { r, secs }),
+                    7 => (r.clone(), r.clone()).prop_map(|(from, to)| SStep::Repl { from, to }),
+                ];
+                (Just(n), proptest::collection::vec(step, 4..28))
+            })
+            .prop_map(|(replicas, steps)| Case { replicas, steps })
+            .boxed()
+    }
+
+    pub fn user_uuid() -> Uuid {
+        Ref::P(0).uuid()
+    }
+    pub fn sid(k: u8) -> Uuid {
+        Uuid::from_u128(0xc011_5e55_0000_4000_8000_0000_0000_0000u128 + k as u128)
+    }
+    pub fn oid(k: u8) -> Uuid {
+        Uuid::from_u128(0xc011_0a02_0000_4000_8000_0000_0000_0000u128 + k as u128)
+    }
+
+    fn cred() -> Credential {
+        static C: OnceLock<Credential> = OnceLock::new();
+        C.get_or_init(|| Credential::new_password_only(&CryptoPolicy::danger_test_minimum(), "c11 harness password", OffsetDateTime::UNIX_EPOCH + ct(0)).expect("cred"))
+            .clone()
+    }
+
+    fn odt(off: u64) -> OffsetDateTime {
+        OffsetDateTime::UNIX_EPOCH + ct(off)
+    }
+
+    fn state_for(exp: u8, now: u64) -> SessionState {
+        match exp {
+            0 => SessionState::NeverExpires,
+            1 => SessionState::ExpiresAt(odt(500_000)),
+            2 => SessionState::ExpiresAt(odt(600_000)),
+            _ => SessionState::ExpiresAt(odt(now + 40)),
+        }
+    }
+
+    /// rank for the independent join: revoked (earliest first) > expires (latest first) > never
+    fn join(a: &SessionState, b: &SessionState) -> SessionState {
+        use SessionState::*;
+        match (a, b) {
+            (RevokedAt(x), RevokedAt(y)) => RevokedAt(if x <= y { x.clone() } else { y.clone() }),
+            (RevokedAt(x), _) | (_, RevokedAt(x)) => RevokedAt(x.clone()),
+            (ExpiresAt(x), ExpiresAt(y)) => ExpiresAt(if x >= y { *x } else { *y }),
+            (ExpiresAt(x), _) | (_, ExpiresAt(x)) => ExpiresAt(*x),
+            (NeverExpires, NeverExpires) => NeverExpires,
+        }
+    }
+
+    type Maps = (BTreeMap<Uuid, SessionState>, BTreeMap<Uuid, SessionState>);
+
+    async fn read_maps(cl: &Cluster, i: usize) -> Maps {
+        let mut r = cl.nodes[i].qs.read().await.expect("read");
+        let e = r.internal_search_all_uuid(user_uuid()).expect("user entry");
+        let a = e
+            .get_ava_as_session_map(Attribute::UserAuthTokenSession)
+            .map(|m| m.iter().map(|(k, v)| (*k, v.state.clone())).collect())
+            .unwrap_or_default();
+        let b = e
+            .get_ava_as_oauth2session_map(Attribute::OAuth2Session)
+            .map(|m| m.iter().map(|(k, v)| (*k, v.state.clone())).collect())
+            .unwrap_or_default();
+        (a, b)
+    }
+
+    /// Known finding (see known_findings.d/C11.json).
+    /// Change ids (rendered) of the two session attributes of the user entry on replica i.
+    async fn attr_cids(cl: &Cluster, i: usize) -> [Option<String>; 2] {
+        use kanidmd_lib::verif_hooks::export::State;
+        let mut r = cl.nodes[i].qs.read().await.expect("read");
+        let e = r.internal_search_all_uuid(user_uuid()).expect("user entry");
+        match e.get_changestate().current() {
+            State::Live { changes, .. } => [
+                changes.get(&Attribute::UserAuthTokenSession).map(|c| format!("{c:?}")),
+                changes.get(&Attribute::OAuth2Session).map(|c| format!("{c:?}")),
+            ],
+            State::Tombstone { .. } => [None, None],
+        }
+    }
+
+    async fn attr_cid_objs(cl: &Cluster, i: usize) -> [Option<Cid>; 2] {
+        use kanidmd_lib::verif_hooks::export::State;
+        let mut r = cl.nodes[i].qs.read().await.expect("read");
+        let e = r.internal_search_all_uuid(user_uuid()).expect("user entry");
+        match e.get_changestate().current() {
+            State::Live { changes, .. } => [
+                changes.get(&Attribute::UserAuthTokenSession).cloned(),
+                changes.get(&Attribute::OAuth2Session).cloned(),
+            ],
+            State::Tombstone { .. } => [None, None],
+        }
+    }
+
+    pub const SIG_E2E_STEP: &str = "consumer session state after a replication step is not the join of its own and the supplied state";
+    pub const SIG_STRANDED: &str = "merged session value stored under the newer input's change id is never supplied onward (same change id, different content on two replicas)";
+    pub const SIG_E2E_DIVERGE: &str = "replicas hold different session states after a full mesh";
+    pub const SIG_E2E_LOST: &str = "a session revoked on one replica is not revoked on every replica after a full mesh";
+    pub const SIG_E2E_JOIN: &str = "session state after a full mesh is not the join of the states written";
+
+    pub fn run(rt: &tokio::runtime::Runtime, c: &Case) -> Outcome {
+        rt.block_on(run_async(c))
+    }
+
+    async fn run_async(c: &Case) -> Outcome {
+        let n = c.replicas.clamp(2, 3) as usize;
+        let mut cl = Cluster::new(n).await;
+        let mut log = CaseLog::new();
+        // setup on replica 0: group, oauth2 client, the user with a password credential
+        {
+            let mut w = cl.nodes[0].qs.write(cl.nodes[0].now()).await.expect("write");
+            ops::apply_in_txn(&mut w, &Op::CreateGroup { i: 0, name: 1, members: vec![] }).expect("group");
+            ops::apply_in_txn(&mut w, &Op::CreateOAuth2 { i: 0, name: 2, group: Ref::G(0) }).expect("oauth2");
+            let mut e = crate::pop::person(user_uuid(), "sessuser");
+            e.add_ava(Attribute::PrimaryCredential, Value::Cred("primary".to_string(), cred()));
+            for k in 0..2u8 {
+                e.add_ava(
+                    Attribute::UserAuthTokenSession,
+                    Value::Session(
+                        sid(k),
+                        Session {
+                            label: format!("s{k}"),
+                            state: SessionState::NeverExpires,
+                            issued_at: odt(k as u64),
+                            issued_by: IdentityId::User(user_uuid()),
+                            cred_id: kanidmd_lib::verif_hooks::replx::credential_uuid(&cred()),
+                            scope: SessionScope::ReadWrite,
+                            type_: AuthType::Password,
+                            ext_metadata: Default::default(),
+                        },
+                    ),
+                );
+            }
+            w.internal_create(vec![e]).expect("user");
+            w.commit().expect("commit");
+            cl.nodes[0].clock += 1;
+        }
+        for i in 1..n {
+            match cl.replicate(0, i).await {
+                ReplResult::Applied => {}
+                other => return harness_error("initial replication failed", format!("{other:?}")),
+            }
+        }
+        let cred_id = kanidmd_lib::verif_hooks::replx::credential_uuid(&cred());
+        // everything ever observed per session id, joined independently
+        let mut seen: Maps = read_maps(&cl, 0).await;
+        // which replica revoked k since the last time every replica was in sync (for class labels)
+        let mut revoked_by: BTreeMap<Uuid, BTreeSet<usize>> = BTreeMap::new();
+        // causal bookkeeping for class labels only: writes[i] = (replica, revoked something);
+        // known[r] = indices of the writes replica r has received
+        let mut writes: Vec<(usize, bool)> = Vec::new();
+        let mut known: Vec<BTreeSet<usize>> = vec![BTreeSet::new(); n];
+        let mut concurrent_rev = false;
+        let mut transit = false;
+        let filt = Filter::new_ignore_hidden(f_eq(Attribute::Uuid, PartialValue::Uuid(user_uuid())));
+        for s in &c.steps {
+            let touched: Option<usize> = match s {
+                SStep::Advance { r, secs } => {
+                    cl.nodes[*r as usize % n].clock += *secs as u64;
+                    None
+                }
+                SStep::Repl { from, to } => {
+                    let (f, t) = (*from as usize % n, *to as usize % n);
+                    if f == t {
+                        None
+                    } else {
+                        // independent prediction of this step: an attribute is supplied iff its change id is
+                        // newer than what the consumer's update vector holds for the originating server; the
+                        // consumer must then hold the key-wise join of its own and the supplied state.
+                        let before_t = read_maps(&cl, t).await;
+                        let from_f = read_maps(&cl, f).await;
+                        let cid_f = attr_cid_objs(&cl, f).await;
+                        let ruv_t = cl.ruv(t).await;
+                        let res = cl.replicate(f, t).await;
+                        if matches!(res, ReplResult::Applied | ReplResult::NoChanges) {
+                            let after_t = read_maps(&cl, t).await;
+                            for (a, which) in ["login", "oauth2"].iter().enumerate() {
+                                let (bt, ff, at) = if a == 0 { (&before_t.0, &from_f.0, &after_t.0) } else { (&before_t.1, &from_f.1, &after_t.1) };
+                                let supplied = match &cid_f[a] {
+                                    Some(c) => ruv_t.get(&c.s_uuid).map(|(_, max)| c.ts > *max).unwrap_or(true),
+                                    None => false,
+                                };
+                                if supplied && ff.is_empty() {
+                                    // supplier holds the attribute as "purged": plain last-writer-wins, no claim
+                                    continue;
+                                }
+                                let mut want = bt.clone();
+                                if supplied {
+                                    for (k, st) in ff {
+                                        want.entry(*k).and_modify(|x| *x = join(x, st)).or_insert(st.clone());
+                                    }
+                                    log.class("e2e:session-attribute-supplied");
+                                }
+                                if *at != want {
+                                    log.fail(
+                                        SIG_E2E_STEP,
+                                        format!("{s:?} ({which}, supplied={supplied}): consumer before {bt:?}, supplier {ff:?}, consumer after {at:?}, expected {want:?}"),
+                                    );
+                                }
+                            }
+                        }
+                        match res {
+                            ReplResult::Applied => {
+                                let news: Vec<usize> = known[f].difference(&known[t]).copied().collect();
+                                if news.iter().any(|w| writes[*w].0 != f) {
+                                    transit = true;
+                                }
+                                known[t].extend(news);
+                                Some(t)
+                            }
+                            ReplResult::NoChanges => None,
+                            other => return harness_error("replication refused in a short history", format!("{s:?} -> {other:?}")),
+                        }
+                    }
+                }
+                _ => {
+                    let (r, mods) = match s {
+                        SStep::Add { r, k, exp } => {
+                            let i = *r as usize % n;
+                            let now = cl.nodes[i].clock;
+                            (
+                                i,
+                                vec![Modify::Present(
+                                    Attribute::UserAuthTokenSession,
+                                    Value::Session(
+                                        sid(*k),
+                                        Session {
+                                            label: format!("s{k}"),
+                                            state: state_for(*exp, now),
+                                            issued_at: odt(*k as u64),
+                                            issued_by: IdentityId::User(user_uuid()),
+                                            cred_id,
+                                            scope: SessionScope::ReadWrite,
+                                            type_: AuthType::Password,
+                                            ext_metadata: Default::default(),
+                                        },
+                                    ),
+                                )],
+                            )
+                        }
+                        SStep::Revoke { r, k } => (
+                            *r as usize % n,
+                            vec![Modify::Removed(Attribute::UserAuthTokenSession, PartialValue::Refer(sid(*k)))],
+                        ),
+                        SStep::AddO2 { r, k, parent, exp } => {
+                            let i = *r as usize % n;
+                            let now = cl.nodes[i].clock;
+                            (
+                                i,
+                                vec![Modify::Present(
+                                    Attribute::OAuth2Session,
+                                    Value::Oauth2Session(
+                                        oid(*k),
+                                        Oauth2Session {
+                                            parent: Some(sid(*parent)),
+                                            state: state_for(*exp, now),
+                                            issued_at: odt(*k as u64),
+                                            rs_uuid: Ref::O(0).uuid(),
+                                        },
+                                    ),
+                                )],
+                            )
+                        }
+                        SStep::RevokeO2 { r, k } => (
+                            *r as usize % n,
+                            vec![Modify::Removed(Attribute::OAuth2Session, PartialValue::Refer(oid(*k)))],
+                        ),
+                        SStep::Touch { r, v } => (
+                            *r as usize % n,
+                            vec![
+                                Modify::Purged(Attribute::Description),
+                                Modify::Present(Attribute::Description, Value::new_utf8s(ops::DESCS[*v as usize % 4])),
+                            ],
+                        ),
+                        _ => unreachable!(),
+                    };
+                    let before = read_maps(&cl, r).await;
+                    // A removal aimed at a session this replica does not hold would only stamp a change id on
+                    // an attribute it cannot say anything about (an absent attribute with a newer change id
+                    // wins as "purged" under last-writer-wins and drops concurrently issued sessions; that is
+                    // outside this property). Real revocations always name a session the replica knows.
+                    let noop = match s {
+                        SStep::Revoke { k, .. } => !before.0.contains_key(&sid(*k)),
+                        SStep::RevokeO2 { k, .. } => !before.1.contains_key(&oid(*k)),
+                        _ => false,
+                    };
+                    if noop {
+                        log.class("e2e:skipped-revoke-of-unknown-session");
+                        continue;
+                    }
+                    let now = cl.nodes[r].now();
+                    let mut w = cl.nodes[r].qs.write(now).await.expect("write");
+                    let res = w.internal_modify(&filt, &ModifyList::new_list(mods)).and_then(|_| w.commit());
+                    if res.is_ok() {
+                        cl.nodes[r].clock += 1;
+                        let after = read_maps(&cl, r).await;
+                        let mut revoked_now = false;
+                        for (k, st) in after.0.iter().chain(after.1.iter()) {
+                            let was = before.0.get(k).or(before.1.get(k));
+                            if matches!(st, SessionState::RevokedAt(_)) && !matches!(was, Some(SessionState::RevokedAt(_))) {
+                                let e = revoked_by.entry(*k).or_default();
+                                e.insert(r);
+                                revoked_now = true;
+                            }
+                        }
+                        let w = writes.len();
+                        writes.push((r, revoked_now));
+                        for (j, (_, rev)) in writes.iter().enumerate() {
+                            if j != w && !known[r].contains(&j) && (*rev || revoked_now) {
+                                concurrent_rev = true;
+                            }
+                        }
+                        known[r].insert(w);
+                        Some(r)
+                    } else {
+                        None
+                    }
+                }
+            };
+            if let Some(i) = touched {
+                let m = read_maps(&cl, i).await;
+                for (k, st) in m.0 {
+                    seen.0.entry(k).and_modify(|x| *x = join(x, &st)).or_insert(st);
+                }
+                for (k, st) in m.1 {
+                    seen.1.entry(k).and_modify(|x| *x = join(x, &st)).or_insert(st);
+                }
+            }
+        }
+        // full mesh
+        let (quiet, results) = cl.quiesce(8, false).await;
+        if results.iter().any(|r| !matches!(r, ReplResult::Applied | ReplResult::NoChanges)) {
+            return harness_error("replication refused in a short history", format!("{results:?}"));
+        }
+        if !quiet {
+            log.fail("replication did not quiesce within 8 full-mesh rounds", format!("{} steps", results.len()));
+        }
+        let mut finals: Vec<Maps> = Vec::new();
+        let mut cids: Vec<[Option<String>; 2]> = Vec::new();
+        for i in 0..n {
+            finals.push(read_maps(&cl, i).await);
+            cids.push(attr_cids(&cl, i).await);
+        }
+        // observations made during the mesh are results of merges, not writes: do not add them to `seen`.
+        let any_rev = seen.0.values().chain(seen.1.values()).any(|s| matches!(s, SessionState::RevokedAt(_)));
+        // Classification of the known finding: two replicas store the attribute under the SAME change id
+        // with DIFFERENT content (a merged value was stored under the newer input's change id, so the
+        // supplier's range filter never sends it on). Everything else is a fresh violation and is logged first.
+        let mut stranded: Option<String> = None;
+        for (a, which) in ["login", "oauth2"].iter().enumerate() {
+            let content = |i: usize| if a == 0 { &finals[i].0 } else { &finals[i].1 };
+            let want = if a == 0 { &seen.0 } else { &seen.1 };
+            let same_cid_diff_content = (0..n).any(|i| (0..n).any(|j| i != j && cids[i][a] == cids[j][a] && content(i) != content(j)));
+            for i in 0..n {
+                for (k, w) in want {
+                    let g = content(i).get(k);
+                    if g == Some(w) {
+                        continue;
+                    }
+                    let msg = format!("replica {i} {which} session {k}: has {g:?}, join of everything written is {w:?}; attribute change ids per replica {:?}", cids.iter().map(|c| c[a].clone()).collect::<Vec<_>>());
+                    if same_cid_diff_content {
+                        stranded.get_or_insert(msg);
+                    } else if matches!(w, SessionState::RevokedAt(_)) && !matches!(g, Some(SessionState::RevokedAt(_))) {
+                        log.fail(SIG_E2E_LOST, msg);
+                    } else {
+                        log.fail(SIG_E2E_JOIN, msg);
+                    }
+                }
+                if i > 0 && content(i) != content(0) {
+                    let msg = format!("{which}: replica 0 {:?} @ {:?} / replica {i} {:?} @ {:?}", content(0), cids[0][a], content(i), cids[i][a]);
+                    if same_cid_diff_content {
+                        stranded.get_or_insert(msg);
+                    } else {
+                        log.fail(SIG_E2E_DIVERGE, msg);
+                    }
+                }
+            }
+        }
+        if let Some(msg) = stranded {
+            log.class("e2e:known-stranded-merge");
+            log.fail(SIG_STRANDED, msg);
+        }
+        log.class(format!("e2e:replicas-{n}"));
+        if any_rev {
+            log.class("e2e:has-revocation");
+        }
+        if concurrent_rev {
+            log.class("e2e:concurrent-revocation");
+            log.nontrivial();
+        }
+        if transit {
+            log.class("e2e:change-relayed-by-third-replica");
+        }
+        if revoked_by.values().any(|s| s.len() >= 2) {
+            log.class("e2e:same-session-revoked-on-two-replicas");
+        }
+        log.finish()
+    }
+}
+
+// =============================================================================================
+// Shared by C08 / C09 / C19: multi-replica histories, causal bookkeeping, convergence comparison
+
+pub mod rh {
+    use super::*;
+    use crate::dump::DiffOpts;
+    use kanidmd_lib::schema::SchemaTransaction;
+
+    #[derive(Debug, Clone, PartialEq, Eq, Hash, Serialize, Deserialize)]
+    pub struct History {
+        pub replicas: u8,
+        /// true: one global virtual time (before a replica acts its clock is moved up to the newest
+        /// clock of the cluster, so no write is ever stamped behind something it has received);
+        /// false: independent clocks, skew as generated by the Advance steps
+        pub synced: bool,
+        pub steps: Vec<Step>,
+    }
+
+    /// In synchronised-clock histories: move replica r's clock up to the newest clock of the cluster.
+    pub fn sync_clock(cl: &mut Cluster, r: usize) {
+        let m = cl.nodes.iter().map(|n| n.clock).max().unwrap_or(0);
+        cl.nodes[r].clock = m;
+    }
+    /// Full-mesh rounds until no step supplies changes (no automatic refresh). With `synced` the
+    /// consumer's clock is moved up to the newest clock of the cluster before every step.
+    pub async fn mesh(cl: &mut Cluster, max_rounds: usize, synced: bool) -> (bool, Vec<ReplResult>) {
+        let n = cl.nodes.len();
+        let mut seen = Vec::new();
+        for _ in 0..max_rounds {
+            let mut changed = false;
+            for from in 0..n {
+                for to in 0..n {
+                    if from == to {
+                        continue;
+                    }
+                    if synced {
+                        sync_clock(cl, to);
+                    }
+                    let r = cl.replicate(from, to).await;
+                    if r == ReplResult::Applied {
+                        changed = true;
+                    }
+                    seen.push(r);
+                }
+            }
+            if !changed {
+                return (true, seen);
+            }
+        }
+        (false, seen)
+    }
+    /// Replica whose clock a step uses.
+    pub fn acting_replica(s: &Step, n: usize) -> usize {
+        match s {
+            Step::Do { r, .. } => *r as usize % n,
+            Step::Repl { to, .. } | Step::Refresh { to, .. } => *to as usize % n,
+        }
+    }
+
+    /// Targets (population members) an op writes to.
+    pub fn targets(op: &Op) -> Vec<Ref> {
+        match op {
+            Op::CreatePerson { i, .. } => vec![Ref::P(*i)],
+            Op::CreateService { i, .. } => vec![Ref::S(*i)],
+            Op::CreateGroup { i, .. } => vec![Ref::G(*i)],
+            Op::CreateOAuth2 { i, .. } => vec![Ref::O(*i)],
+            Op::CreateDynGroup { i, .. } => vec![Ref::D(*i)],
+            Op::Rename { t, .. }
+            | Op::SetAttr { t, .. }
+            | Op::AddAttr { t, .. }
+            | Op::PurgeAttr { t, .. }
+            | Op::SetManager { t, .. }
+            | Op::EnablePosix { t, .. }
+            | Op::DisablePosix { t }
+            | Op::Delete { t }
+            | Op::Revive { t }
+            | Op::BadSingleMulti { t }
+            | Op::BadUnknownClass { t }
+            | Op::BadRemoveMust { t } => vec![*t],
+            Op::AddMember { g, .. } | Op::RemoveMember { g, .. } | Op::SetMembers { g, .. } => vec![*g],
+            Op::SetScopeMap { o, .. } => vec![Ref::O(*o)],
+            Op::SetDynFilter { d, .. } => vec![Ref::D(*d)],
+            _ => vec![],
+        }
+    }
+    /// The name (index into ops::NAMES) an op claims, if any.
+    pub fn claimed_name(op: &Op) -> Option<u8> {
+        match op {
+            Op::CreatePerson { name, .. }
+            | Op::CreateService { name, .. }
+            | Op::CreateGroup { name, .. }
+            | Op::CreateOAuth2 { name, .. }
+            | Op::CreateDynGroup { name, .. }
+            | Op::CreateAnonGroup { name }
+            | Op::Rename { name, .. } => Some(*name % ops::NAMES.len() as u8),
+            _ => None,
+        }
+    }
+    pub fn kind(op: &Op) -> &'static str {
+        match op {
+            Op::CreatePerson { .. } | Op::CreateService { .. } | Op::CreateGroup { .. } | Op::CreateOAuth2 { .. } | Op::CreateDynGroup { .. } | Op::CreateAnonGroup { .. } => "create",
+            Op::Rename { .. } => "rename",
+            Op::SetAttr { .. } | Op::AddAttr { .. } | Op::PurgeAttr { .. } | Op::SetManager { .. } | Op::SetScopeMap { .. } | Op::SetDynFilter { .. } => "attr",
+            Op::AddMember { .. } | Op::RemoveMember { .. } | Op::SetMembers { .. } => "member",
+            Op::EnablePosix { .. } | Op::DisablePosix { .. } => "class",
+            Op::Delete { .. } => "delete",
+            Op::Revive { .. } => "revive",
+            _ => "other",
+        }
+    }
+
+    /// Causal bookkeeping used for class labels and non-triviality only (never for verdicts):
+    /// which committed writes each replica has received.
+    #[derive(Default)]
+    pub struct Causal {
+        /// (replica, op) of every committed write
+        pub writes: Vec<(usize, Op)>,
+        pub known: Vec<BTreeSet<usize>>,
+        pub labels: BTreeSet<String>,
+    }
+    impl Causal {
+        pub fn new(n: usize) -> Self {
+            Causal {
+                writes: Vec::new(),
+                known: vec![BTreeSet::new(); n],
+                labels: BTreeSet::new(),
+            }
+        }
+        /// a committed write on replica r
+        pub fn wrote(&mut self, r: usize, op: &Op) {
+            let w = self.writes.len();
+            let t: BTreeSet<Ref> = targets(op).into_iter().collect();
+            let nm = claimed_name(op);
+            for (j, (rj, oj)) in self.writes.iter().enumerate() {
+                if *rj == r || self.known[r].contains(&j) {
+                    continue;
+                }
+                // oj is concurrent with op
+                let tj: BTreeSet<Ref> = targets(oj).into_iter().collect();
+                let same_target = t.intersection(&tj).next().is_some();
+                let (a, b) = (kind(oj), kind(op));
+                if same_target {
+                    self.labels.insert("concurrent:same-entry".into());
+                    let pair = if a <= b { format!("concurrent:{a}+{b}") } else { format!("concurrent:{b}+{a}") };
+                    self.labels.insert(pair);
+                }
+                if nm.is_some() && nm == claimed_name(oj) && !same_target {
+                    self.labels.insert("concurrent:same-name-different-entry".into());
+                }
+            }
+            self.writes.push((r, op.clone()));
+            self.known[r].insert(w);
+        }
+        /// replica `to` received everything `from` knows
+        pub fn replicated(&mut self, from: usize, to: usize) {
+            let news: Vec<usize> = self.known[from].difference(&self.known[to]).copied().collect();
+            if news.iter().any(|w| self.writes[*w].0 != from) {
+                self.labels.insert("relayed-by-third-replica".into());
+            }
+            self.known[to].extend(news);
+        }
+        /// replica `to` was overwritten by a refresh from `from`
+        pub fn refreshed(&mut self, from: usize, to: usize) {
+            if self.known[to].difference(&self.known[from]).next().is_some() {
+                self.labels.insert("refresh-discarded-local-writes".into());
+            }
+            self.known[to] = self.known[from].clone();
+            self.labels.insert("refresh".into());
+        }
+    }
+
+    /// Names of the attributes the schema does NOT replicate (they are derived locally), taken from
+    /// the server's own schema for the attribute names that occur in the dumps.
+    pub async fn non_replicated(cl: &Cluster, dumps: &[Dump]) -> Vec<String> {
+        let r = cl.nodes[0].qs.read().await.expect("read");
+        let schema = r.get_schema();
+        let mut names: BTreeSet<String> = BTreeSet::new();
+        for d in dumps {
+            for e in d.values() {
+                names.extend(e.attrs.keys().cloned());
+                names.extend(e.changes.keys().cloned());
+            }
+        }
+        names.into_iter().filter(|n| !schema.is_replicated(&Attribute::from(n.as_str()))).collect()
+    }
+
+    /// Pairwise comparison of every replica with replica 0 (entries, status, replicated attributes,
+    /// change state). Returns (replica, discrepancy) pairs.
+    pub fn compare(dumps: &[Dump], skip: &[String]) -> Vec<(usize, String)> {
+        let skip_refs: Vec<&str> = skip.iter().map(|s| s.as_str()).collect();
+        let mut out = Vec::new();
+        for (i, d) in dumps.iter().enumerate().skip(1) {
+            for l in dump::diff(
+                &dumps[0],
+                d,
+                &DiffOpts {
+                    skip_attrs: &skip_refs,
+                    ids: false,
+                    changestate: true,
+                },
+            ) {
+                out.push((i, l));
+            }
+        }
+        out
+    }
+
+
+    /// Known root cause shared by C08/C09/C19 (see known_findings.d): a write transaction's change id is
+    /// max(local clock, own previous id + 1 ns) and ignores ids received by replication, so a replica whose
+    /// clock is behind can stamp a write LOWER than the change id already on the attribute. It wins locally
+    /// and loses everywhere else.
+    pub const SIG_STALE_LOCAL: &str = "a replica keeps its own write stamped with a change id lower than one it had already received (lagging clock; received ids do not advance the local id clock)";
+
+    /// Known root cause found by C11 (see known_findings.d/C11.json), as it shows in whole-entry dumps:
+    /// an attribute of a MERGING value type (audit log such as name_history, sessions, key objects)
+    /// carries the same change id on two replicas but different content.
+    pub const SIG_STRANDED_ATTR: &str = "merged value (audit log incl. name_history, sessions, key objects) stored under the newer input's change id is never supplied onward (same change id, different content on two replicas)";
+
+    async fn merging_attrs(cl: &Cluster, dumps: &[Dump]) -> BTreeSet<String> {
+        let r = cl.nodes[0].qs.read().await.expect("read");
+        let schema = r.get_schema();
+        let mut names: BTreeSet<String> = BTreeSet::new();
+        for d in dumps {
+            for e in d.values() {
+                names.extend(e.attrs.keys().cloned());
+            }
+        }
+        names
+            .into_iter()
+            .filter(|n| {
+                schema
+                    .get_attributes()
+                    .get(&Attribute::from(n.as_str()))
+                    .map(|a| matches!(format!("{:?}", a.syntax).as_str(), "AuditLogString" | "Session" | "Oauth2Session" | "KeyInternal"))
+                    .unwrap_or(false)
+            })
+            .collect()
+    }
+
+    /// Known: see known_findings.d (C08/C19).
+    pub const SIG_SELF_SOURCE: &str = "conflict entry carries the locally added source_uuid=own-uuid marker on some replicas only (validate_repl marks a schema-invalid merge without a change id)";
+
+    pub async fn server_uuids(cl: &Cluster) -> Vec<String> {
+        let mut out = Vec::new();
+        for i in 0..cl.nodes.len() {
+            let now = cl.nodes[i].now();
+            let w = cl.nodes[i].qs.write(now).await.expect("write");
+            out.push(kanidmd_lib::verif_hooks::repl::server_uuid(&w).to_string());
+            drop(w);
+        }
+        out
+    }
+
+    /// Split the differences found by `compare` into (unexplained, description of the explained ones).
+    /// Fingerprint of the known root cause on an (entry, attribute): the two replicas hold different
+    /// change ids and the LOWER one was stamped by a replica that still holds it (after a full mesh a
+    /// replica can only keep its own lower id if it wrote it over a greater one it had received; a refresh
+    /// may have copied that state to further replicas).
+    /// Every difference of an entry that shows the fingerprint on some attribute is attributed to it
+    /// (e.g. the merged entry is schema-invalid elsewhere and parked as a conflict there).
+    pub async fn split_stale_local(cl: &Cluster, dumps: &[Dump], diffs: &[(usize, String)]) -> (Vec<(usize, String)>, Option<String>, Option<String>, Option<String>) {
+        let suuids = server_uuids(cl).await;
+        let stale_local = |i: usize, line: &str| -> bool {
+            let mut it = line.splitn(2, ": ");
+            let (Some(u), Some(rest)) = (it.next(), it.next()) else { return false };
+            let Ok(u) = u.parse::<Uuid>() else { return false };
+            let attr = if let Some(r) = rest.strip_prefix("attr ") {
+                r.split(':').next().unwrap_or("")
+            } else if let Some(r) = rest.strip_prefix("change cid of ") {
+                r.split(':').next().unwrap_or("")
+            } else {
+                return false;
+            };
+            let (Some(a), Some(b)) = (dumps[0].get(&u), dumps[i].get(&u)) else { return false };
+            let (Some(ca), Some(cb)) = (a.changes.get(attr), b.changes.get(attr)) else { return false };
+            if ca == cb {
+                return false;
+            }
+            let lo = if ca < cb { ca } else { cb };
+            // the replica that stamped the lower id still holds it (a refresh may have copied it to others)
+            (0..dumps.len()).any(|k| lo.ends_with(&suuids[k]) && dumps[k].get(&u).and_then(|e| e.changes.get(attr)) == Some(lo))
+        };
+        // second known fingerprint: merging attribute, equal change ids, different content
+        let merging = merging_attrs(cl, dumps).await;
+        let stranded = |i: usize, line: &str| -> bool {
+            let mut it = line.splitn(2, ": ");
+            let (Some(u), Some(rest)) = (it.next(), it.next()) else { return false };
+            let Ok(u) = u.parse::<Uuid>() else { return false };
+            let Some(r) = rest.strip_prefix("attr ") else { return false };
+            let attr = r.split(':').next().unwrap_or("");
+            if !merging.contains(attr) {
+                return false;
+            }
+            let (Some(a), Some(b)) = (dumps[0].get(&u), dumps[i].get(&u)) else { return false };
+            a.changes.get(attr).is_some() && a.changes.get(attr) == b.changes.get(attr)
+        };
+        // third known fingerprint: validate_repl parks a schema-invalid merge as a conflict by adding
+        // class recycled/conflict and source_uuid = the entry's OWN uuid locally, without a change id; the
+        // marker therefore exists only on replicas that went through that path for this entry.
+        let self_source = |i: usize, line: &str| -> bool {
+            let mut it = line.splitn(2, ": ");
+            let (Some(us), Some(rest)) = (it.next(), it.next()) else { return false };
+            let Ok(u) = us.parse::<Uuid>() else { return false };
+            if !rest.starts_with("attr source_uuid:") {
+                return false;
+            }
+            let (Some(a), Some(b)) = (dumps[0].get(&u), dumps[i].get(&u)) else { return false };
+            if a.status != b.status || a.changes.get("source_uuid") != b.changes.get("source_uuid") {
+                return false;
+            }
+            let own = format!("\"{us}\"");
+            let strip = |e: &crate::dump::EntryDump| -> Vec<String> { e.attrs.get("source_uuid").cloned().unwrap_or_default().into_iter().filter(|v| *v != own).collect() };
+            strip(a) == strip(b)
+        };
+        let self_lines: Vec<(usize, String)> = diffs.iter().filter(|(i, l)| self_source(*i, l)).cloned().collect();
+        let stranded_lines: Vec<(usize, String)> = diffs.iter().filter(|(i, l)| stranded(*i, l)).cloned().collect();
+        let tainted: BTreeSet<String> = diffs
+            .iter()
+            .filter(|(i, l)| stale_local(*i, l))
+            .filter_map(|(_, l)| l.split(": ").next().map(|s| s.to_string()))
+            .collect();
+        let unexplained: Vec<(usize, String)> = diffs
+            .iter()
+            .filter(|(_, l)| !tainted.contains(l.split(": ").next().unwrap_or("")))
+            .filter(|x| !stranded_lines.contains(x) && !self_lines.contains(x))
+            .cloned()
+            .collect();
+        let msg = if tainted.is_empty() {
+            None
+        } else {
+            Some(format!(
+                "{} differences on {} entries showing the fingerprint, e.g. {:?}; server uuids {:?}",
+                diffs.iter().filter(|(_, l)| tainted.contains(l.split(": ").next().unwrap_or(""))).count(),
+                tainted.len(),
+                diffs.iter().filter(|(_, l)| tainted.contains(l.split(": ").next().unwrap_or(""))).take(4).collect::<Vec<_>>(),
+                suuids
+            ))
+        };
+        let smsg = if stranded_lines.is_empty() { None } else { Some(format!("{} attribute differences with equal change ids, e.g. {:?}", stranded_lines.len(), stranded_lines.iter().take(2).collect::<Vec<_>>())) };
+        let selfmsg = if self_lines.is_empty() { None } else { Some(format!("{:?}", self_lines.iter().take(2).collect::<Vec<_>>())) };
+        (unexplained, msg, smsg, selfmsg)
+    }
+
+    pub fn is_refusal(r: &ReplResult) -> bool {
+        matches!(r, ReplResult::RefreshRequired | ReplResult::Unwilling | ReplResult::DomainMismatch)
+    }
+
+    /// `verify()` of replica i (consistency errors rendered), via the read transaction.
+    pub async fn verify(cl: &Cluster, i: usize) -> Vec<String> {
+        let mut r = cl.nodes[i].qs.read().await.expect("read");
+        kanidmd_lib::verif_hooks::replx::verify_read(&mut r)
+    }
+
+    /// Population uuids only (ignore built-in entries) helper.
+    pub fn is_population(u: &Uuid) -> bool {
+        u.as_u128() >> 112 == 0xAAAA
+    }
+
+    pub fn status_counts(d: &Dump) -> BTreeMap<Status, usize> {
+        let mut m = BTreeMap::new();
+        for e in d.values() {
+            *m.entry(e.status).or_default() += 1;
+        }
+        m
+    }
+}
